@@ -46,8 +46,10 @@ func (w *World) setupCallbacks() {
 	}
 	var cbs g.StoreCallbacks
 	if bits&CbRefCount != 0 {
-		w.rc = newRefCounter()
-		rc := w.rc
+		rc := newRefCounter()
+		if w.opt.RefCount {
+			w.rc = rc // C15: the counts are asserted on; otherwise they are only kept (C17)
+		}
 		cbs.ItemAddRef = func(c *g.Collection, i *g.Item) {
 			rc.cnt[i]++
 			rc.ops++
